@@ -971,6 +971,20 @@ func jobC15hist(c *rt.Ctx) {
 		}
 	}
 	c.Require("history/sandwich")
+	// streaks: N consecutive calls of one failing kind (N = 2..9, 15..17, 31..33), then each sentinel: a
+	// counter of consecutive failures / refusals that changes behaviour at a threshold
+	for _, failing := range []string{"Batch4OneBad", "Batch64BadLast", "VerifyBad", "Batch5FailingEntropy", "BatchCtxTooLong256"} {
+		for _, nrep := range []int{2, 3, 4, 5, 6, 7, 8, 9, 15, 16, 17, 31, 32, 33} {
+			for _, sn := range []string{"Batch5FailingEntropy", "Batch4Good", "Batch65", "Batch4OneBad", "VerifyGood", "BatchCtxTooLong256"} {
+				if !c.Thorough() && nrep > 9 && sn != "Batch5FailingEntropy" && sn != "Batch4OneBad" {
+					continue
+				}
+				sq := append(rep(opIx(failing), nrep), opIx(sn))
+				seqs = append(seqs, sq)
+			}
+		}
+	}
+	c.Require("history/streak")
 	// calls in flight: k honest batches parked inside their entropy readers (k = 1..6, 8) at GOMAXPROCS 1,
 	// 16 and 32 while a forged-last-entry batch, a forged-entry-60 batch, a batch under a third context and
 	// a signature run to completion; every result == solo, every parked batch all-valid afterwards
@@ -1024,7 +1038,9 @@ func jobC15hist(c *rt.Ctx) {
 			continue
 		}
 		c.Step(len(seq))
-		if len(seq) > 200 && seq[0] != seq[1] {
+		if len(seq) >= 3 && len(seq) <= 40 && seq[0] == seq[1] && seq[len(seq)-2] == seq[0] && (len(seq) > deepDepth || seq[len(seq)-1] != seq[0]) && !strings.Contains(c15ops[seq[0]].name, "Reuse") {
+			c.Class("history/streak")
+		} else if len(seq) > 200 && seq[0] != seq[1] {
 			c.Class("history/sandwich")
 		} else if len(seq) >= longN {
 			c.Class("history/long-run")
